@@ -73,6 +73,19 @@ package actor
 //@             callfn(old(ncalls())) == "actor.Adapter.Ready" || callfn(old(ncalls())) == "actor.Adapter.Check"
 //@             || callfn(old(ncalls())) == "actor.Adapter.Fold" || callfn(old(ncalls())) == "actor.Adapter.Pay")
 
+// the time-bank handler of an unanswered request: nothing when the request was cancelled (the player answered);
+// otherwise idle bookkeeping on the runner only, then exactly what automate may do
+//@ func (*playerRunner).requestMove$1
+//@   property C19
+//@   requires pr != nil && gs != nil && ActionsWF(pr.actions, pr.actor, pr.playerID) && ListsOK(gs, playerIdx)
+//@   modifies pr.status, pr.idleCount, log
+//@   ensures cancelled-does-nothing: isCancelled ==> noCall() && unchanged(pr.status) && unchanged(pr.idleCount)
+//@   ensures never-volunteers: ncalls() <= old(ncalls()) + 1 && (ncalls() == old(ncalls()) + 1 ==>
+//@             callfn(old(ncalls())) == "actor.Adapter.Ready" || callfn(old(ncalls())) == "actor.Adapter.Check"
+//@             || callfn(old(ncalls())) == "actor.Adapter.Fold" || callfn(old(ncalls())) == "actor.Adapter.Pay")
+//@   ensures acts-for-itself: ncalls() == old(ncalls()) + 1 ==> callarg(old(ncalls()), 0) == pr.playerID
+//@   ensures idle-players-drift-to-suspended: !isCancelled && old(pr.status) == PlayerStatus_Idle && old(pr.idleCount) + 1 == pr.suspendThreshold ==> pr.status == PlayerStatus_Suspend
+
 //@ func (*playerRunner).requestMove
 //@   property C19
 //@   returns err
@@ -139,6 +152,35 @@ package actor
 //@   ensures one-own-action: len(AA(gs, playerIdx)) >= 1 ==> ncalls() >= old(ncalls()) + 1 && ncalls() <= old(ncalls()) + 2 && callarg(old(ncalls()), 0) == br.playerID
 //@             && (ncalls() == old(ncalls()) + 2 ==> callfn(old(ncalls()) + 1) == "callback:onTableGameWagerActionUpdated")
 //@   ensures legal: len(AA(gs, playerIdx)) >= 1 ==> exists(j, 0, 9, j < len(AA(gs, playerIdx)) && legalMove(gs, gs.Players[playerIdx], AA(gs, playerIdx)[j]))
+
+// a bot's reaction to a table snapshot: silent when it is not at the table, when the hand state is not newer than
+// the one it reacted to last, when no hand is being played, or when it is not asked anything
+//@ spec botSeated(br, t) = exists(i, 0, 10, i < len(t.State.PlayerStates) && t.State.PlayerStates[i].PlayerID == br.playerID)
+//@ spec botSeatedIn(br, t) = exists(i, 0, 10, i < len(t.State.PlayerStates) && t.State.PlayerStates[i].PlayerID == br.playerID && t.State.PlayerStates[i].IsIn
+//@       && forall(j, 0, i, t.State.PlayerStates[j].PlayerID != br.playerID))
+//@ spec botPlayerIdx(br, t, i) = i < len(t.State.PlayerStates) && t.State.PlayerStates[i].PlayerID == br.playerID && forall(j, 0, i, t.State.PlayerStates[j].PlayerID != br.playerID)
+//@ spec botHandIdx(br, t, k) = k < len(t.State.GamePlayerIndexes) && k < len(t.State.GameState.Players) && botPlayerIdx(br, t, t.State.GamePlayerIndexes[k]) && forall(j, 0, k, t.State.GamePlayerIndexes[j] != t.State.GamePlayerIndexes[k])
+//@ spec SnapOK(t) = InfoOK(t) && 0 <= len(t.State.PlayerStates) && len(t.State.PlayerStates) <= 10 && forall(i, 0, 10, i < len(t.State.PlayerStates) ==> t.State.PlayerStates[i] != nil)
+//@     && 0 <= len(t.State.GamePlayerIndexes) && len(t.State.GamePlayerIndexes) <= 10
+//@     && (t.State.Status == "table_game_playing" ==> t.State.GameState != nil)
+//@     && (t.State.GameState != nil ==> forall(k, 0, 10, k < len(t.State.GameState.Players) ==> AskedOK(t.State.GameState, k)))
+
+//@ func (*botRunner).UpdateTableState
+//@   property C18
+//@   returns err
+//@   requires br != nil && SnapOK(table) && ActionsWF(br.actions, br.actor, br.playerID) && br.timebank != nil
+//@   modifies br.tableInfo, br.curGameID, br.lastGameStateTime, log
+//@   ensures not-at-the-table-stays-silent: !botSeated(br, table) ==> noCall() && err == nil
+//@   ensures stale-view-is-ignored: botSeatedIn(br, table) && table.State.GameState != nil && table.State.GameState.GameID == old(br.curGameID)
+//@             && old(br.lastGameStateTime) >= table.State.GameState.UpdatedAt ==> noCall() && err == nil && unchanged(br.lastGameStateTime)
+//@   ensures silent-between-hands: botSeatedIn(br, table) && table.State.Status != "table_game_playing" ==> noCall() && err == nil
+//@   ensures view-time-follows-the-snapshot: botSeatedIn(br, table) && table.State.GameState != nil && !(table.State.GameState.GameID == old(br.curGameID) && old(br.lastGameStateTime) >= table.State.GameState.UpdatedAt)
+//@             ==> br.lastGameStateTime == table.State.GameState.UpdatedAt && br.curGameID == table.State.GameState.GameID
+//@   ensures not-dealt-in-stays-silent: botSeatedIn(br, table) && table.State.Status == "table_game_playing"
+//@             ==> forall(i, 0, 10, botPlayerIdx(br, table, i) && forall(k, 0, 10, k < len(table.State.GamePlayerIndexes) ==> table.State.GamePlayerIndexes[k] != i) ==> noCall() && err == nil)
+//@   ensures not-asked-stays-silent: botSeatedIn(br, table) && table.State.Status == "table_game_playing"
+//@             ==> forall(k, 0, 10, botHandIdx(br, table, k) && len(AA(table.State.GameState, k)) == 0 ==> noCall() && err == nil)
+//@   ensures at-most-one-action-or-timer: ncalls() <= old(ncalls()) + 2
 
 //@ func (*botRunner).requestMove
 //@   property C18
